@@ -74,6 +74,15 @@ Theorem C29_no_panic : forall s bs he,
 Proof. exact load_obj_no_panic. Qed.
 Print Assumptions C29_no_panic.
 
+(* Exactly when the loader panics: the object has no external and some block contains a run of
+   65536 or more consecutive initialised words.  (No public API can build such a block: both file
+   formats store block lengths in 16 bits and the assembler refuses blocks that wrap.) *)
+Theorem C29_panic_iff : forall s bs he,
+  load_obj s bs he = LoadPanic <->
+  he = false /\ Exists (fun b : block => Exists big_init_chunk (chunk_by_some (snd b))) bs.
+Proof. exact load_obj_panic_iff. Qed.
+Print Assumptions C29_panic_iff.
+
 (* A new simulator, for every flag setting and fill value: the OS image (today's os_blocks,
    regenerated from the crate) at its addresses, initialised zeros in xFE00..xFFFF, the
    uninitialised fill value elsewhere; PC = x3000, PSR = x8002. *)
